@@ -202,7 +202,7 @@ def handleCliRoute (req : Lean.Json) (id : String) : IO Unit := do
   let pkgs := pairs "pkgs"; let outs := pairs "outs"; let roots := pairs "roots"
   let defPkg := getStr req "defPkg"; let defOut := getStr req "defOut"
   let ids := ((pkgs ++ outs ++ roots).map (·.1)).eraseDups
-  let ms := ids.map (assembleMapping pkgs outs roots defPkg defOut)
+  let ms := assembleAll pkgs outs roots defPkg defOut ids
   let sid := getStr req "schemaID"
   let r := route ms defOut defPkg sid
   IO.println s!"{id}\tROUTE\t{canon (.str r.fileName)}\t{canon (.str r.pkg)}\t{canon (.str ((rootOverride ms sid).getD ""))}"
